@@ -45,6 +45,26 @@ Theorem wfb_gives_wf_complex : forall (P : leaf (R * R) -> Prop) (e : oexpr (R *
   wfb e = true -> Forall P (leaves e) -> wf P e.
 Proof. exact (wf_of_wfb cring_ok_C). Qed.
 
+(* TIE TO THE SOURCE BY PROOF.  Gen/Adjoints.v is regenerated on every run by translate/adjoints.py from the
+   `adjoint` properties of operator.py (7 expression classes), pspace_ops.py (Broadcast/Reduction/Diagonal and the
+   projections), default_ops.py, tensor_ops.py, diff_ops.py, discr_ops.py, read as constructor expressions (class,
+   operand order, conjugations, space arguments).  C05/AdjInterp.v interprets these tables ([adjoint_gen],
+   [leaf_adjoint_gen]; the Python `*` is dispatched as Operator.__mul__/__rmul__ do).  The model the theorems of
+   this file are about IS that interpretation -- for every tree and every leaf: *)
+From Verif Require Import C05.AdjSyntax Gen.Adjoints C05.AdjInterp C05.AdjProofs.
+Theorem adjoint_model_is_generated : forall (T : Type) (NT : Num T) (CT : Conj T) (e : oexpr T),
+  adjoint_gen true e = adjoint e.
+Proof. exact (@adjoint_generated). Qed.
+Theorem leaf_adjoint_model_is_generated : forall (T : Type) (NT : Num T) (CT : Conj T) (l : leaf T),
+  leaf_adjoint_gen true l = Some (leaf_adjoint l).
+Proof. exact (@leaf_adjoint_generated). Qed.
+(* [true] selects the complex branch of the purely "is it real?" conditions of the source; on a carrier with
+   trivial conjugation (real spaces) the real branches give the same expression: *)
+Theorem adjoint_real_branches_agree : forall (T : Type) (NT : Num T) (CT : Conj T),
+  (forall a : T, nconj a = a) -> forall e : oexpr T, adjoint_gen false e = adjoint_gen true e.
+Proof. exact (@real_reading_agrees). Qed.
+Print Assumptions adjoint_model_is_generated.
+
 (* T1 (A.adjoint.adjoint acts like A, all trees): whenever the expression and the expression
    returned as its adjoint are both well-formed with good leaves, and the weights are real
    and invertible, the double adjoint evaluates like the operator itself (uniqueness of the
